@@ -7,7 +7,7 @@
 (*                                                                                                *)
 (* An object is [live, p, q, r]; ids index small per-class text tables of the harness, 0 = NULL:  *)
 (*   objpair: p = key, q = value                    tok: p = src, q = sep, r = 1 iff evaluated    *)
-(*   url:     p = text, q = host set by the setter (0 = as parsed)                                 *)
+(*   url:     p = text, q = host set by the setter (0 = as parsed, 3 = cleared: set to NULL)      *)
 (*   regexp:  p = pattern, q = flags (0 none, 1 = "i")                                             *)
 (* Texts are chosen so that id order = text order (comp is stated to follow the text / the key).  *)
 EXTENDS Integers, Sequences, TLC, Json
@@ -39,6 +39,12 @@ OpSetP(t) == /\ A.live /\ Cls \in {"objpair", "tok"}
              /\ Step("set_p", <<t>>, TRUE, [A EXCEPT !.p = t, !.r = IF IsTok THEN A.r ELSE 0], B)
 OpSetQ(t) == /\ A.live /\ Cls \in {"objpair", "tok", "url"}
              /\ Step("set_q", <<t>>, TRUE, [A EXCEPT !.q = t], B)
+\* clearing a property: the setter is handed NULL, deletes what it held and stores NULL
+Cleared == IF IsUrl THEN 3 ELSE 0
+OpClearQ  == /\ A.live /\ Cls \in {"objpair", "tok", "url"} /\ (IsUrl => A.p # 0)
+             /\ Step("clear_q", <<>>, TRUE, [A EXCEPT !.q = Cleared], B)
+OpBClearQ == /\ B.live /\ Cls \in {"objpair", "tok", "url"} /\ (IsUrl => B.p # 0)
+             /\ Step("b_clear_q", <<>>, TRUE, A, [B EXCEPT !.q = Cleared])
 OpSetFlags(f) == /\ A.live /\ IsRe /\ A.p # 0 /\ Step("set_flags", <<f>>, TRUE, [A EXCEPT !.q = f], B)
 OpGetP == /\ A.live /\ Step("get_p", <<>>, A.p, A, B)
 OpGetQ == /\ A.live /\ Step("get_q", <<>>, A.q, A, B)
@@ -72,7 +78,7 @@ OpCompRev == /\ A.live /\ B.live /\ (Cls \in {"url", "regexp"} => (A.p # 0 /\ B.
 OpCompNull == /\ A.live /\ Step("comp_null", <<>>, 1, A, B)                 \* NULL is below every object
 
 Init == A = Dead /\ B = Dead
-Next == \/ OpNew \/ OpGetP \/ OpGetQ \/ OpEval \/ OpDup \/ OpDone \/ OpDel \/ OpBDel \/ OpBDone \/ OpBEval \/ OpAdopt
+Next == \/ OpClearQ \/ OpBClearQ \/ OpNew \/ OpGetP \/ OpGetQ \/ OpEval \/ OpDup \/ OpDone \/ OpDel \/ OpBDel \/ OpBDone \/ OpBEval \/ OpAdopt
         \/ OpComp \/ OpCompRev \/ OpCompNull
         \/ \E t \in T : OpNewFromPtr(t) \/ OpNewFromKey(t) \/ OpNewFromValue(t) \/ OpSetP(t) \/ OpSetQ(t) \/ OpBSetQ(t)
         \/ \E t, u \in T : OpNewFromBoth(t, u)
@@ -80,8 +86,8 @@ Next == \/ OpNew \/ OpGetP \/ OpGetQ \/ OpEval \/ OpDup \/ OpDone \/ OpDel \/ Op
         \/ \E s \in 1 .. 4 : OpMatches(s)
 Spec == Init /\ [][Next]_vars
 
-TypeOK == /\ A \in [live : BOOLEAN, p : T \cup {0}, q : T \cup {0}, r : {0, 1}]
-          /\ B \in [live : BOOLEAN, p : T \cup {0}, q : T \cup {0}, r : {0, 1}]
+TypeOK == /\ A \in [live : BOOLEAN, p : T \cup {0}, q : T \cup {0, 3}, r : {0, 1}]
+          /\ B \in [live : BOOLEAN, p : T \cup {0}, q : T \cup {0, 3}, r : {0, 1}]
           /\ (~A.live => A = Dead) /\ (~B.live => B = Dead)
 \* independence: an action addressed to one slot never changes the other (except dup/adopt, which define it)
 Independent == [][ \/ A' = A \/ B' = B \/ (A' = B /\ B' = Dead) ]_vars
